@@ -151,6 +151,38 @@ for seed in (0, 1234, 7):
 """, "expect": "the shared arguments (seed, outputs, readout, processor, names) reach every dask task: seeded parallel == seeded sequential, seed 0 included"}
 
 
+ONE_TASK_REPLAY = lambda w: {"code": """
+import sys, types, dask, numpy as np, verif_probes as VP
+import pyxel
+from pyxel.pipelines import DetectionPipeline, ModelFunction
+from pyxel.exposure import Readout
+from pyxel.observation import Observation, ParameterValues
+mod = types.ModuleType('c07_grid')
+def cell(detector, a=0.0, b=0.0):
+    if b > 1.0:
+        raise ValueError('b out of range 4711')
+    detector.photon.array = np.full(detector.geometry.shape, 100.0 * a + b)
+mod.cell = cell
+sys.modules['c07_grid'] = mod
+pipe = DetectionPipeline(photon_collection=[ModelFunction(func='c07_grid.cell', name='cell', arguments={'a': 0.0, 'b': 0.0})])
+obs = Observation(parameters=[ParameterValues(key='pipeline.photon_collection.cell.arguments.a', values=[1.0, 2.0]),
+                              ParameterValues(key='pipeline.photon_collection.cell.arguments.b', values=[0.25, 0.5, 1.5])], readout=Readout(times=[1.0]), with_dask=True)
+VIOLATED, DETAIL = False, 'every run of a parallel sweep is its own task: a failing run does not take valid runs with it'
+with dask.config.set(scheduler='synchronous'):
+    dt = pyxel.run_mode(mode=obs, detector=VP.detector(), pipeline=pipe, with_inherited_coords=True)
+    ph = dt['/bucket/photon']
+    for a in (1.0, 2.0):
+        for b in (0.25, 0.5):
+            try:
+                v = float(np.asarray(ph.sel(a=a, b=b).compute()).ravel()[0])
+            except Exception as e:
+                VIOLATED, DETAIL = True, f'the run a={a}, b={b} is valid but computing it raised {e!r} (the failing run b=1.5 shares its task)'; break
+            if v != 100.0 * a + b:
+                VIOLATED, DETAIL = True, f'run a={a}, b={b}: photon {v}, expected {100.0 * a + b}'; break
+        if VIOLATED: break
+""", "expect": "one dask task per run (parameters and file indices chunked one cell per task)"}
+
+
 @unit("C07", "fileindex")
 def fileindex(u: Unit):
     fn = u.fn(f"{OD}::run_pipelines_with_dask")
@@ -173,7 +205,7 @@ def fileindex(u: Unit):
              f"file indices = arange(size).reshape(shape) on the dims of the parameter array, one chunk per cell: {idx_exprs}",
              replay=FILEINDEX_REPLAY)
     u.static("fileindex.passed_per_chunk", len(pos) >= 3 and pos[0] == "_run_pipelines_tuple_to_array" and pos[1] == P + ".chunk(1)", fn.qualname,
-             f"apply_ufunc(task, parameters chunked one cell per task, file indices): {pos[:3]}")
+             f"apply_ufunc(task, parameters chunked one cell per task, file indices): {pos[:3]}", replay=ONE_TASK_REPLAY)
     kd = DU.dict_arg(fn.node, next((k.value for k in cs[0].keywords if k.arg == "kwargs"), None)) if len(cs) == 1 else None
     want = {"dimension_names": "dim_names", "processor": "processor", "outputs": "outputs", "readout": "readout", "pipeline_seed": "pipeline_seed"}
     u.static("task.shared_arguments_forwarded", kd is not None and all(kd.get(k) == v for k, v in want.items()), fn.qualname, f"kwargs of apply_ufunc: {kd}", replay=SEEDED_DASK_REPLAY)
